@@ -11,9 +11,9 @@ T_LIT = 1400000000
 
 def lit_view(blob, decrypted=False):
     """Reference view of a plaintext message: (literal dict, compression, signature bodies).
-    decrypted=True: PGPy keeps the modification-detection packet of a decrypted message and re-exports it; it is
-    not part of what C03 compares, so a trailing tag 19 packet is dropped here."""
-    rec = rmsg.recognise(blob, tolerate_mdc=decrypted)
+    (Until the repair recorded under C20 in known_findings.json PGPy re-exported the modification-detection packet of a decrypted
+    message; the view is strict again: a stray tag 19 packet makes the export unrecognisable.)"""
+    rec = rmsg.recognise(blob)
     if rec['kind'] != 'literal':
         raise rmsg.GrammarError('not a literal message')
     comp = rec['compression'] if rec['compression'] is not None else rec.get('inner_compression')
